@@ -94,7 +94,11 @@ func (x *Exec) doCallValues(fr *Frame, cc *ssa.CallCommon, fnv Value, args []Val
 		return x.doBuiltin(fr, cc, strings.TrimPrefix(fnv.Ext, "builtin."), args, pos, bc, st, site)
 	}
 	if fnv.Kind == VFunc && fnv.Ext != "" {
-		return x.resultValue(sig, x.callExternal(fr, fnv.Ext, sig, args, pos, bc, st, site))
+		rs := x.callExternal(fr, fnv.Ext, sig, args, pos, bc, st, site)
+		for _, r := range rs {
+			x.assumeValueInv(st, bc, r)
+		}
+		return x.resultValue(sig, rs)
 	}
 	if fnv.Kind == VFunc && fnv.Fn != nil {
 		all := append(append([]Value{}, fnv.Binds...), args...)
@@ -118,7 +122,11 @@ func (x *Exec) callFunction(fr *Frame, callee *ssa.Function, args []Value, free 
 		}
 	}
 	if callee.Blocks == nil || (callee.Pkg != x.E.Pkg && callee.Pkg != nil) {
-		return x.callExternal(fr, externalKey(callee), callee.Signature, args, pos, bc, st, site)
+		rs := x.callExternal(fr, externalKey(callee), callee.Signature, args, pos, bc, st, site)
+		for _, r := range rs {
+			x.assumeValueInv(st, bc, r)
+		}
+		return rs
 	}
 	// recursion / depth
 	for _, f := range x.stack {
@@ -178,6 +186,15 @@ func (x *Exec) contractVars(callee *ssa.Function, args []Value, results []Value,
 		if i < len(args) {
 			if sv, ok := x.specVarOf(args[i], site); ok {
 				vars[p.Name()] = sv
+			} else if args[i].Kind == VStruct {
+				// struct-valued parameter: fields are addressable as p.f
+				if _, sty, ok := x.structOf(p.Type()); ok {
+					for fi := 0; fi < sty.NumFields() && fi < len(args[i].Fields); fi++ {
+						if fv, ok := x.specVarOf(args[i].Fields[fi], site); ok {
+							vars[p.Name()+"."+sty.Field(fi).Name()] = fv
+						}
+					}
+				}
 			}
 		}
 	}
@@ -266,6 +283,31 @@ func (x *Exec) applyContract(fr *Frame, callee *ssa.Function, con *Contract, arg
 func (x *Exec) applyModifies(con *Contract, env *SpecEnv, pre, st State, key string) {
 	byComp := map[string][]*ModTarget{}
 	for _, m := range con.Modifies {
+		if m.Comp == "fresh" {
+			// the callee may allocate (and let escape) objects in any component it writes
+			w := map[string]bool{}
+			if fn := x.E.FnByKey[key]; fn != nil {
+				x.compsWritten(fn, nil, map[*ssa.Function]bool{}, w)
+			}
+			for _, c := range sortedKeys(w) {
+				sort, ok := x.E.CompSorts[c]
+				if !ok || c == "alloc" {
+					continue
+				}
+				if _, isArr := elemOfArr(sort); !isArr || strings.HasPrefix(c, "G_") {
+					continue
+				}
+				byComp[c] = append(byComp[c], &ModTarget{Comp: c, Idx: "fresh"})
+			}
+			if w["*map"] {
+				for _, c := range x.E.compNames() {
+					if strings.HasPrefix(c, "Map_") {
+						byComp[c] = append(byComp[c], &ModTarget{Comp: c, Idx: "fresh"})
+					}
+				}
+			}
+			continue
+		}
 		comps := map[string]bool{}
 		x.expandModComp(m.Comp, comps)
 		for _, c := range sortedKeys(comps) {
@@ -277,6 +319,9 @@ func (x *Exec) applyModifies(con *Contract, env *SpecEnv, pre, st State, key str
 	}
 	for _, c := range sortedKeys(byComp) {
 		ms := byComp[c]
+		if c == "G_held" && con.Mode != "lock" {
+			continue
+		}
 		sort := x.E.CompSorts[c]
 		whole := false
 		for _, m := range ms {
@@ -286,7 +331,11 @@ func (x *Exec) applyModifies(con *Contract, env *SpecEnv, pre, st State, key str
 		}
 		el, isArr := elemOfArr(sort)
 		if whole || !isArr {
+			old := x.comp(pre, c)
 			st[c] = x.C.Fresh(c+"_c", sort)
+			if c == "G_calls_len" {
+				x.C.Assume(BoolLit(true), T(SBool, app(">=", st[c].S, old.S)))
+			}
 			continue
 		}
 		cur := x.comp(pre, c)
